@@ -1,6 +1,7 @@
 import Okane.Model.ImportCsv
 import Okane.Lemmas.ImportTxn
 import Okane.Lemmas.ImportConvCsv
+import Okane.Lemmas.ImportCsvCells
 /-!
 # C16 — CSV import books each row with the right sign, amount and balance
 
@@ -1008,5 +1009,161 @@ example : exBadConvTxn.ConvShape "USD" "EUR" ⟨false, 6249, 2⟩ ⟨false, 8, 1
   · refine ⟨fun hp => ?_, fun _ => by decide +kernel⟩
     have := hp.rateC
     simp [exConvTxn1, AMap.get?] at this
+
+/-! ## The cell decoders: number cells and templates (`Model/ImportCsvCells.lean`, `Lemmas/ImportCsvCells.lean`)
+
+Everything above holds for every number parser (`CsvEnv.parseAmt`) and for templates that arrive parsed.  Here the two
+decoders that are okane's own code are plugged in: `Cells.cellDecimal` (`str_to_comma_decimal` =
+`TryFrom<&str> for expr::Amount`, `permutation` of number and commodity) and `Cells.parseTemplate`
+(`Template::from_str`).  The main theorems are restated; proofs in `Lemmas/ImportCsvCells.lean`. -/
+
+open Cells in
+/-- **C16_cell_total**: the parser behind `str_to_comma_decimal` has no panic, no fuel, no cut: a value with the whole
+cell consumed, or a backtrack. -/
+theorem C16_cell_total (s : List Char) : (∃ v, cellParse s = .ok v []) ∨ (∃ p, cellParse s = .bt p) :=
+  cellParse_total s
+
+open Cells in
+/-- **C16_cell_exact**: a number cell is accepted iff it is an optional minus, then a well-formed literal within range
+(C07: `Spec.WellFormedLiteral`, `Spec.Representable`) and a commodity text in either order, each followed by optional
+blanks, nothing left; the decimal is the one written, sign flag toggled by the leading minus. -/
+theorem C16_cell_accepts_exactly (s : List Char) (v : PDec) (c : List Char) :
+    cellAmount s = some (v, c) ↔
+      ∃ neg tok, CellForm s neg tok c ∧ Spec.WellFormedLiteral tok = true ∧ Spec.Representable tok = true ∧
+        v = (if neg then flipSign (C07.litDec tok) else C07.litDec tok) :=
+  C16_cell_exact s v c
+
+open Cells in
+/-- **C16_cell_sign**: the value of an accepted cell is the unsigned literal written, times `(-1)^(number of minus signs
+written)` (`--100.00` = `100.00`, `-$-1.46` = `1.46`, `$-1.46` = `-$1.46` = `-1.46`); its scale is the number of decimal
+places written. -/
+theorem C16_cell_minus_signs (s : String) (x : Dec) (h : cellDecimal s = some x) :
+    ∃ neg tok com, CellForm s.toList neg tok com ∧
+      Spec.WellFormedLiteral tok = true ∧ Spec.Representable tok = true ∧
+      x.toRat = (-1 : Rat) ^ minusCount neg tok * Spec.litValue (Spec.stripMinus tok) ∧
+      x.scale = Spec.litScale tok := by
+  obtain ⟨neg, tok, com, hf, hw, hr, hv, hs, _⟩ := C16_cell_value s.toList x h
+  refine ⟨neg, tok, com, hf, hw, hr, ?_, hs⟩
+  obtain ⟨_, _, ht, _, _⟩ := hf
+  rw [hv, litValue_strip tok (isNegative_token_body ht)]
+  unfold minusCount
+  cases neg <;> cases Spec.isNegative tok <;> simp <;> grind
+
+theorem Dec.toRat_negate (d : Dec) : d.negate.toRat = - d.toRat := by
+  unfold Dec.negate Dec.isSignPositive Dec.toRat
+  cases d.neg <;> simp
+
+open Cells in
+/-- **C16_amount_written** (sign and amount clause on the TEXT of the cell): with okane's own number decoder, a row
+whose `amount` cell is non-empty moves an asset account by exactly the number written in the cell (unsigned literal
+times `(-1)^(minus signs written)`, same number of decimal places) and a liability account by its negation; an empty
+cell counts as zero. -/
+theorem C16_amount_written (parseDate : String → Option Date) (cap : Captures) (fm : FieldMap) (at_ : AccountType)
+    (rec : List String) (f : CsvField) (a : Dec) (hv : fm.value = .amount f)
+    (h : fm.amount (cellEnv parseDate cap) at_ rec = .ok a) :
+    ∃ cell, fm.resolve .amount f rec = .ok (some cell) ∧
+      ((cell.isEmpty = true ∧ a.mant = 0) ∨
+       (cell.isEmpty = false ∧ ∃ neg tok com, CellForm cell.toList neg tok com ∧
+          Spec.WellFormedLiteral tok = true ∧ Spec.Representable tok = true ∧ a.scale = Spec.litScale tok ∧
+          (at_ = .asset → a.toRat = (-1 : Rat) ^ minusCount neg tok * Spec.litValue (Spec.stripMinus tok)) ∧
+          (at_ = .liability → a.toRat = - ((-1 : Rat) ^ minusCount neg tok * Spec.litValue (Spec.stripMinus tok))))) := by
+  obtain ⟨cell, v, hc, hs, ha, hl⟩ := C16_sign_amount _ fm at_ rec f a hv h
+  refine ⟨cell, hc, ?_⟩
+  by_cases he : cell.isEmpty = true
+  · left
+    refine ⟨he, ?_⟩
+    have : v = none := by
+      unfold strToCommaDecimal at hs
+      simp only [he, if_true] at hs
+      injection hs with hs; exact hs.symm
+    subst this
+    cases at_
+    · rw [ha rfl]; rfl
+    · rw [hl rfl]; rfl
+  · right
+    have he' : cell.isEmpty = false := by simpa using he
+    obtain ⟨d, rfl, hp⟩ := strToCommaDecimal_some _ cell v hs he'
+    have hp' : cellDecimal cell = some d := hp
+    obtain ⟨neg, tok, com, hf, hw, hr, hval, hsc⟩ := C16_cell_minus_signs cell d hp'
+    refine ⟨he', neg, tok, com, hf, hw, hr, ?_, ?_, ?_⟩
+    · cases at_
+      · rw [ha rfl]; exact hsc
+      · rw [hl rfl]; exact hsc
+    · intro hat; rw [ha hat]; exact hval
+    · intro hat; rw [hl hat, Option.getD_some, Dec.toRat_negate, hval]
+
+open Cells in
+/-- **C16_credit_debit_written**: with a credit and a debit column and okane's own number decoder, the row moves the
+account by `+` the number written in the credit cell when that cell is non-empty, else by `−` the number written in
+the debit cell. -/
+theorem C16_credit_debit_written (parseDate : String → Option Date) (cap : Captures) (fm : FieldMap) (at_ : AccountType)
+    (rec : List String) (cf df : CsvField) (a : Dec) (hv : fm.value = .creditDebit cf df)
+    (h : fm.amount (cellEnv parseDate cap) at_ rec = .ok a) :
+    ∃ credit debit, fm.resolve .credit cf rec = .ok (some credit) ∧ fm.resolve .debit df rec = .ok (some debit) ∧
+      ((credit.isEmpty = false ∧ ∃ neg tok com, CellForm credit.toList neg tok com ∧
+          a.toRat = (-1 : Rat) ^ minusCount neg tok * Spec.litValue (Spec.stripMinus tok) ∧ a.scale = Spec.litScale tok) ∨
+       (credit.isEmpty = true ∧ debit.isEmpty = false ∧ ∃ neg tok com, CellForm debit.toList neg tok com ∧
+          a.toRat = - ((-1 : Rat) ^ minusCount neg tok * Spec.litValue (Spec.stripMinus tok)) ∧ a.scale = Spec.litScale tok)) := by
+  obtain ⟨credit, debit, h1, h2, h3⟩ := C16_sign_credit_debit _ fm at_ rec cf df a hv h
+  refine ⟨credit, debit, h1, h2, ?_⟩
+  rcases h3 with ⟨he, hp⟩ | ⟨he, hd, d, hp, rfl⟩
+  · left
+    have hp' : cellDecimal credit = some a := hp
+    obtain ⟨neg, tok, com, hf, _, _, hval, hsc⟩ := C16_cell_minus_signs credit a hp'
+    exact ⟨he, neg, tok, com, hf, hval, hsc⟩
+  · right
+    have hp' : cellDecimal debit = some d := hp
+    obtain ⟨neg, tok, com, hf, _, _, hval, hsc⟩ := C16_cell_minus_signs debit d hp'
+    exact ⟨he, hd, neg, tok, com, hf, by rw [Dec.toRat_negate, hval], hsc⟩
+
+/-- non-vacuity of `C16_amount_written` / `C16_credit_debit_written`: a liability statement listing `--100.00`, read
+through the real decoder model, moves the account by `-100.00` (two minus signs cancel, the account type negates);
+`$-1.46` in the debit column moves it by `+1.46`. -/
+example :
+    (⟨.column 0, .column 1, .amount (.column 2), [(.amount, .column 2)], 2⟩ : FieldMap).amount
+      (Cells.cellEnv (fun _ => none) (fun _ _ => none)) .liability ["d", "p", "--100.00"] = .ok ⟨true, 10000, 2⟩ ∧
+    (⟨.column 0, .column 1, .creditDebit (.column 2) (.column 3), [], 3⟩ : FieldMap).amount
+      (Cells.cellEnv (fun _ => none) (fun _ _ => none)) .asset ["d", "p", "", "$-1.46"] = .ok ⟨false, 146, 2⟩ := by
+  decide +kernel
+
+open Cells in
+/-- **C16_template_accepts_exactly**: `Template::from_str` accepts exactly the sequences of maximal non-empty brace-free
+literal runs and `{key}` references with a valid key (positive column number within `usize`, or one of `date`, `payee`,
+`category`, `note`, `commodity`, `secondary_commodity`); everything else is `InvalidTemplate`. -/
+theorem C16_template_accepts_exactly (s : List Char) (segs : List Seg) :
+    parseTemplateL s = some segs ↔
+      ∃ ws, s = spell ws ∧ (∀ w ∈ ws, w.WF) ∧ NoAdjLit ws ∧ meanings ws = some segs :=
+  C16_template_exact s segs
+
+open Cells in
+/-- **C16_template_round_trip**: parsing the `Display` text of a parsed template gives the same template; the text
+itself is reproduced unless a column number is written with a leading zero (`{007}` prints as `{7}`). -/
+theorem C16_template_round_trip (s : List Char) (segs : List Seg) (h : parseTemplateL s = some segs) :
+    parseTemplateL (printTemplateL segs) = some segs ∧ (¬ ['{', '0'] <:+: s → printTemplateL segs = s) :=
+  ⟨C16_template_roundtrip s segs h, C16_template_print_id s segs h⟩
+
+open Cells in
+/-- **C16_template_rejects**: unbalanced braces and invalid keys are rejected — an accepted template has as many `{`
+as `}`, and a `{key}` with a key `template_key_from_str` refuses makes the template invalid wherever it stands. -/
+theorem C16_template_rejects :
+    (∀ (s : List Char) (segs : List Seg), parseTemplateL s = some segs → s.count '{' = s.count '}') ∧
+    (∀ (pre k post : List Char), (∃ segs, parseTemplateL pre = some segs) → NoBrace k → templateKeyFromStr k = none →
+      parseTemplateL (pre ++ '{' :: (k ++ '}' :: post)) = none) :=
+  ⟨C16_template_braces, C16_template_bad_key⟩
+
+/-- the importer with templates given as text: a good one is parsed by `parseTemplate` and rendered by `renderTemplate`
+(the statement lists `$-5.00` under a negating template `-{3}`: two minus signs, the account moves by `+5.00`); a text
+that is not a template fails `FieldMap::try_new` with `TemplateParseFailed` (non-vacuity: both happen) -/
+example :
+    (csvImport (Cells.cellEnv (fun s => if s = "2024-01-02" then some ⟨2024, 1, 2⟩ else none) (fun _ _ => none))
+      ⟨"Assets:Bank", .asset, none, "USD", {}, .oldToNew,
+        [(.date, .index 1), (.amount, Cells.decodePos (.template "-{3}")), (.payee, Cells.decodePos (.template "{2} [{1}]"))], []⟩
+      ["d", "p", "a"] [["2024-01-02", "shop", "$-5.00"]]).map' (List.map fun t => (t.payee, t.amount)) =
+      .ok [("shop [2024-01-02]", ⟨⟨false, 500, 2⟩, "USD"⟩)] ∧
+    (csvImport (Cells.cellEnv (fun _ => none) (fun _ _ => none))
+      ⟨"Assets:Bank", .asset, none, "USD", {}, .oldToNew,
+        [(.date, .index 1), (.amount, .index 3), (.payee, Cells.decodePos (.template "{amount}"))], []⟩
+      ["d", "p", "a"] []).map' (List.map fun t => (t.payee, t.amount)) = .err .templateParseFailed := by
+  decide +kernel
 
 end Okane.Import
